@@ -261,6 +261,11 @@ func stripComments(dsl string) string {
 }
 
 func (c *renderCtx) check(cfg simrt.Config) ([]mismatch, simrt.Stats, string) {
+	mm, st, summary := c.check0(cfg)
+	return settleAborted([]string{"C14"}, false, mm, st), st, summary
+}
+
+func (c *renderCtx) check0(cfg simrt.Config) ([]mismatch, simrt.Stats, string) {
 	var mm []mismatch
 	add := func(class, f string, a ...any) {
 		mm = append(mm, mismatch{"C14", class, "", fmt.Sprintf(f, a...)})
